@@ -264,11 +264,53 @@ def _frame_of_var(ff: FuncFacts, var: str, at: ast.AST) -> Frame:
         ff._rd = rd
     defs = [d for d in rd.defs_at(sink, var)]
     creations = [d for d in defs if isinstance(d, ast.Assign) and len(d.targets) == 1 and isinstance(d.targets[0], ast.Name)]
+    if len(creations) > 1 and len({ast.unparse(c.value) for c in creations}) == 1 and all(cfg.node_of(c) is not None for c in creations):
+        # the same creation written once per branch (`response = bytearray(8)` in both arms of an if): one abstract frame whose
+        # stores are those that follow either creation on the way to the sink
+        cnodes = [cfg.node_of(c) for c in creations]
+        base = frame_at(ff, creations[0].value, creations[0], 1)
+        stores_m: List[Store] = []
+        for n in cfg.nodes:
+            if n.kind != "stmt" or n in cnodes:
+                continue
+            if n is sink and not _stores_into(n.ast, var):
+                continue
+            if not any(cfg.dominates(c, n) and (n is sink or n in cfg.reach_from(c, avoid=lambda x: x is sink)) for c in cnodes):
+                continue
+            if n is not sink and sink not in cfg.reach_from(n, avoid=lambda x: x in cnodes):
+                continue
+            st_ = _store_of(ff, n.ast, var)
+            if st_ is not None:
+                stores_m.append(st_)
+        stores_m.sort(key=lambda s_: getattr(s_.stmt, "lineno", 0))
+        return Frame(base.length, base.origin, creations[0], stores_m, base.parts, base.cmd_ctx)
     if len(defs) != 1 or len(creations) != 1:
         # stores through subscripts count as defs in ReachingDefs; fall back to the dominating plain assignment
         cands = [n for n in cfg.nodes if n.kind == "stmt" and isinstance(n.ast, ast.Assign) and len(n.ast.targets) == 1
                  and isinstance(n.ast.targets[0], ast.Name) and n.ast.targets[0].id == var and cfg.dominates(n, sink)]
         if not cands:
+            allc = [n for n in cfg.nodes if n.kind == "stmt" and isinstance(n.ast, ast.Assign) and len(n.ast.targets) == 1
+                    and isinstance(n.ast.targets[0], ast.Name) and n.ast.targets[0].id == var and sink in cfg.reach_from(n)]
+            from .rules.common import must_pass as _mp
+            if len(allc) > 1 and len({ast.unparse(n.ast.value) for n in allc}) == 1 and _mp(cfg, lambda n: n in allc, to_nodes=[sink]) is None:
+                # the same creation written once per branch (`response = bytearray(8)` in both arms of an if), one of them on
+                # every path: one abstract frame whose stores are those that follow either creation on the way to the sink
+                base = frame_at(ff, allc[0].ast.value, allc[0].ast, 1)
+                stores_m: List[Store] = []
+                for n in cfg.nodes:
+                    if n.kind != "stmt" or n in allc:
+                        continue
+                    if n is sink and not _stores_into(n.ast, var):
+                        continue
+                    if not any(cfg.dominates(c, n) or n in cfg.reach_from(c) for c in allc):
+                        continue
+                    if n is not sink and sink not in cfg.reach_from(n, avoid=lambda x: x in allc):
+                        continue
+                    st_ = _store_of(ff, n.ast, var)
+                    if st_ is not None:
+                        stores_m.append(st_)
+                stores_m.sort(key=lambda s_: getattr(s_.stmt, "lineno", 0))
+                return Frame(base.length, base.origin, allc[0].ast, stores_m, base.parts, base.cmd_ctx)
             raise Unrecognised(f"no single creation of `{var}` reaches line {getattr(at, 'lineno', '?')}")
         # the latest dominating creation
         cands.sort(key=lambda n: len(cfg.dominators()[n]))
